@@ -41,9 +41,61 @@ def styled(rng, text):
     out, last = [], None
     for p in parts:
         st = rng.choice([x for x in ("text", "literal", "emphasis", "invalid", "text") if x != last])
-        out.append((st, p))
+        # sometimes as an embedded document (Doc::doc) holding that one fragment
+        out.append((("doc-" + st) if rng.random() < 0.3 else st, p))
         last = st
     return out
+
+
+def first_paragraph(h, innermost=False):
+    """A help text (string or styled fragments) cut at its first paragraph break.  A break is a blank line INSIDE one
+    fragment: every fragment is split on its own, so a newline ending one fragment and one starting the next do not meet.
+    `innermost`: the recorded deviation C13-para-break-inside-embedded-doc instead -- a break inside an embedded document
+    hides only the rest of THAT document."""
+    if h is None:
+        return None
+    if isinstance(h, str):
+        return h.split("\n\n")[0]
+    out = []
+    for st, tx in h:
+        if "\n\n" in tx:
+            tx = tx.split("\n\n")[0]
+            if tx:
+                out.append((st, tx))
+            if innermost and st.startswith("doc-"):
+                continue
+            break
+        out.append((st, tx))
+    return out
+
+
+def embedded_break(opts):
+    """Does some help text hold an embedded document with a paragraph break inside it, followed by more of the text?"""
+    for x in gen.walk(opts["p"]):
+        h = x["n"]["help"] if x["k"] in ("flag", "arg") else None
+        if isinstance(h, list) and any(st.startswith("doc-") and "\n\n" in tx for st, tx in h[:-1]):
+            return True
+    return False
+
+
+def truncated(opts, innermost=False):
+    """The same definition with every help text, description, header and footer cut at its first paragraph break."""
+    import copy
+    o = copy.deepcopy(opts)
+    for x in [o] + list(gen.walk(o["p"])):
+        if x["k"] == "options":
+            for f in ("descr", "header", "footer"):
+                x[f] = first_paragraph(x[f])
+        if x["k"] in ("flag", "arg"):
+            x["n"]["help"] = first_paragraph(x["n"]["help"], innermost)
+        if x["k"] in ("pos", "cmd"):
+            x["help"] = first_paragraph(x["help"])
+        if x["k"] == "group-help" and "\n" in x["d"]:
+            # a group title is split at its first line break (Doc::em_doc: the first line is the section header, the rest
+            # its body, whatever the break looks like); paragraphs are those of the body
+            a, b = x["d"].split("\n", 1)
+            x["d"] = a + "\n" + first_paragraph(b)
+    return o
 
 
 class C13(Property):
@@ -105,6 +157,13 @@ class C13(Property):
             else:
                 argv = gen.mutate(rng, gen.gen_argv(rng, opts), opts)      # an error document
             cases.append(Case("d%d" % k, opts, argv, mode=mode, tags={"widths": ws, "role": "doc"}))
+            if what < 0.55:
+                # the short form against the full form of the same definition holding only first paragraphs
+                cases.append(Case("d%dt" % k, truncated(opts), [b"--help", b"--help"], mode="render 100 60000",
+                                  tags={"widths": [100], "role": "trunc", "of": "d%d" % k}))
+                if embedded_break(opts):
+                    cases.append(Case("d%dk" % k, truncated(opts, True), [b"--help", b"--help"], mode="render 100 60000",
+                                      tags={"widths": [100], "role": "trunc-known", "of": "d%d" % k}))
         return cases
 
     def execute(self, cases):
@@ -177,17 +236,36 @@ class C13(Property):
                         out.append(Finding("violation", c, "width %d: line of %d characters that is neither a code line nor a single "
                                                            "unbreakable word after its indentation/term: %r" % (w, len(bad), bad[:160])))
                         break
-            # short form: every later paragraph of every help text is absent, the first is present
-            if not full:
-                if "PARA2ZZ" in mono.decode("utf-8") and "PARA2ZZ" in ref.decode("utf-8"):
-                    # paragraphs of the description/header/footer blocks are not item help: only check item bodies
-                    pass
+            # short form: exactly the first paragraph of each help text -- the text content of the full form of the same
+            # definition with every text cut at its first paragraph break
+            if c.tags["role"] == "trunc":
+                oc = impl.get(c.tags["of"])
+                if oc and oc[0] == "RENDER" and oc[2] == "0":
+                    dist["short_forms"] = dist.get("short_forms", 0) + 1
+                    short = self.strip_ws(gen.unhx(oc[4]))
+                    if short != ref_s:
+                        orig = next(x for x in cases if x.id == c.tags["of"])
+                        kc = impl.get(c.tags["of"] + "k")
+                        explained = bool(kc and kc[0] == "RENDER" and ("60000:" + kc[5].split("60000:")[1].split(";")[0]) and
+                                         self.strip_ws(gen.unhx(kc[5].split("60000:")[1].split(";")[0])) == short)
+                        orig.tags["embedded_break_explains"] = explained
+                        out.append(Finding("violation", orig, "the short form of help is not exactly the first paragraph of each help text: "
+                                                              "it differs from the full form of the same definition with only first "
+                                                              "paragraphs: %r" % (self.diff(ref_s, short),), related=[c]))
         stats = {"nontrivial_ids": nontrivial, "distribution": dist,
                  "rule": "definitions whose help/description/header/footer strings are multi-paragraph texts with hard breaks, indented "
                          "and fenced code, 120-character words, non-ASCII, tabs, NBSP x {help, detailed help, error documents}; "
                          "each document rendered at a width set (quick: 22 widths incl. 1,2,39,40,41,100,300; thorough: 1..300) + "
                          "unwrapped; the model renders the same token list; non-trivial = document obtained and rendered"}
         return out, stats
+
+    def known_class(self, cls, f):
+        if cls != "para_break_inside_embedded_doc" or f.kind != "violation" or "short form" not in f.detail:
+            return False
+        # some help text holds an embedded document with a paragraph break inside it, followed by more of the text, AND the
+        # short form is exactly what "the break hides only the rest of the embedded document" gives (rendered by the
+        # implementation from the accordingly cut definition): any other difference is still reported
+        return embedded_break(f.case.opts) and bool(f.case.tags.get("embedded_break_explains"))
 
     @staticmethod
     def diff(a, b):
@@ -216,9 +294,5 @@ class C13(Property):
             # that also appear verbatim in the unwrapped rendering
             return line
         return None
-
-    def known_class(self, cls, f):
-        return False
-
 
 PROP = C13()
